@@ -133,9 +133,12 @@ func (p *Processor[K, T]) process(isNext bool) {
 
 // Processing loop.
 func (p *Processor[K, T]) processLoop() {
+	released := false
 	defer func() {
 		// Release the channel when exiting
-		<-p.processorRunningCh
+		if !released {
+			<-p.processorRunningCh
+		}
 	}()
 
 	var (
@@ -150,10 +153,15 @@ func (p *Processor[K, T]) processLoop() {
 		// Continue processing items until the queue is empty
 		p.lock.Lock()
 		r, ok = p.queue.Peek()
-		p.lock.Unlock()
 		if !ok {
+			// Release the channel while still holding the lock: an Enqueue that comes after this point must start a new
+			// loop, rather than assume that this one (which is about to exit) will pick up the new item
+			<-p.processorRunningCh
+			released = true
+			p.lock.Unlock()
 			return
 		}
+		p.lock.Unlock()
 
 		// Check if after obtaining the lock we have a stop or reset signals
 		// Do this before we create a timer
